@@ -69,7 +69,7 @@ def run_bm(sc, workdir):
     bits = lambda t: max(1, (max(t, 2) - 1).bit_length())
     consts = dict(NRows=nrows, NCols=ncols, Align=align, Depth=p["depth"], tRP=p["tRP"], tRCD=p["tRCD"], tWTP=twtp,
                   tRC=p["tRC"] or 0, tRAS=p["tRAS"] or 0, CntBitsWTP=bits(twtp), CntBitsRC=bits(p["tRC"] or 0),
-                  CntBitsRAS=bits(p["tRAS"] or 0), AutoPre="TRUE" if p["ap"] else "FALSE")
+                  CntBitsRAS=bits(p["tRAS"] or 0), AutoPre="TRUE" if p["ap"] else "FALSE", RefWaitsTras="TRUE")
     cfgp = os.path.join(workdir, "T_BankMachine.cfg")
     with open(cfgp, "w") as f:
         f.write("SPECIFICATION TSpec\nINVARIANT AtEnd\nCHECK_DEADLOCK FALSE\nCONSTANTS\n" +
